@@ -304,3 +304,39 @@ def finish(ctx, gate, mod):
         ctx.prop, ctx.tier, ctx.seed, ctx.evaluations, len(ctx.nontrivial), gate['discharged'], gate['obligations'],
         len(ctx.disagreements), len(ctx.prop_failures), ctx.known_hits, time.time() - ctx.t0))
     return 1 if lines else 0
+
+
+def coq_eval_ints(header, exprs, shard=400, jobs=12, timeout=900):
+    """Evaluate Coq expressions (each of a type printing as integers) with vm_compute, one
+    `Eval` per expression; returns for each expression the list of integers printed.
+    Used for the PrimFloat-dependent layout model, which is not extracted."""
+    import concurrent.futures
+    d = tempfile.mkdtemp(prefix='pffcoq')
+    files = []
+    try:
+        for si in range(0, len(exprs), shard):
+            path = os.path.join(d, 'cases%d.v' % (si // shard))
+            with open(path, 'w') as f:
+                f.write(header + '\n')
+                for e in exprs[si:si + shard]:
+                    f.write('Eval vm_compute in (%s).\n' % e)
+            files.append(path)
+
+        def one(path):
+            rc, out = sh(['timeout', str(timeout), 'coqc', '-Q', COQ, 'PFF', path], cwd=d, timeout=timeout + 30)
+            if rc != 0:
+                raise RuntimeError('coqc failed on generated cases: ' + out[-800:])
+            res = []
+            for blk in out.split('     = ')[1:]:
+                body = blk.split('\n     : ')[0]
+                res.append([int(x) for x in re.findall(r'(-?\d+)%Z', body)] if '%Z' in body
+                           else [int(x) for x in re.findall(r'-?\d+', body)])
+            return res
+        with concurrent.futures.ThreadPoolExecutor(max_workers=jobs) as ex:
+            parts = list(ex.map(one, files))
+        out = [r for p in parts for r in p]
+        if len(out) != len(exprs):
+            raise RuntimeError('coq_eval: %d results for %d expressions' % (len(out), len(exprs)))
+        return out
+    finally:
+        shutil.rmtree(d, ignore_errors=True)
